@@ -296,7 +296,7 @@ func c12Variant(t *rapid.T, base *Call, regen func() (desc.V, bool)) *Call {
 		cp.Unscoped, cp.PerType, cp.CallFns = nil, nil, nil
 	case 4:
 		if len(cp.PerType) == 0 {
-			cp.Tag = rapid.SampledFrom([]string{"", "alipay", "wechat"}).Draw(t, "retag")
+			cp.Tag = rapid.SampledFrom([]string{"", "alipay", "wechat", emptyTag}).Draw(t, "retag")
 		}
 	case 5:
 		if v, ok := regen(); ok {
@@ -308,6 +308,11 @@ func c12Variant(t *rapid.T, base *Call, regen func() (desc.V, bool)) *Call {
 		cp.Val = zeroOfRoot(cp.Root, cp.Val)
 	}
 	cp.pickEntry(rapid.IntRange(0, 7).Draw(t, "ventry"))
+	if (cp.Unscoped != nil || len(cp.PerType) > 0) && rapid.IntRange(0, 3).Draw(t, "twice") == 0 {
+		cp.Entry, cp.Twice = "VStruct", true // rule sets registered twice: decoy first, real one second
+	} else {
+		cp.Twice = false
+	}
 	return &Call{S: &cp}
 }
 
